@@ -407,9 +407,9 @@ func TestHarness(t *testing.T) {
 
 	// search: after a model/implementation disagreement, look for a concrete history on
 	// which the implementation itself violates a property (monitors only, no model).
-	search := func(prefix []string, qs []queueSpec, seed uint64, only string) ([]string, *failure) {
+	search := func(prefix []string, qs []queueSpec, seed uint64, only string, focus bool) ([]string, *failure) {
 		for try := 0; try < 40; try++ {
-			g := &generator{rng: hx.NewRand(seed*1000 + uint64(try)), queues: qs, nextC: 1000, nextK: 1000, nextTok: 1000}
+			g := &generator{rng: hx.NewRand(seed*1000 + uint64(try)), queues: qs, nextC: 1000, nextK: 1000, nextTok: 1000, focus: focus}
 			lines := append([]string(nil), prefix...)
 			r := &run{drv: drv, noModel: true, onlyProp: only, prev: map[string]string{}, flags: map[string]bool{}, streams: map[int]*streamMon{}, doneTask: map[int]string{}}
 			synctest_run(t, r, func() {
@@ -431,14 +431,17 @@ func TestHarness(t *testing.T) {
 		}
 		return nil, nil
 	}
-	reportWithSearch := func(lines []string, qs []queueSpec, f *failure, seed uint64) {
+	reportWithSearch := func(lines []string, qs []queueSpec, f *failure, seed uint64, focus bool) {
 		other := f.kind == "violation" && o.Prop != "" && f.prop != "" && f.prop != o.Prop
 		if f.kind == "mismatch" || other {
 			only := ""
 			if other {
 				only = o.Prop
+			} else if f.prop != "" {
+				// a disagreement with the model of one property's mechanism (e.g. C04's selection functions): look for a violation of that property
+				only = f.prop
 			}
-			if vl, vf := search(lines, qs, seed, only); vf != nil {
+			if vl, vf := search(lines, qs, seed, only, focus); vf != nil {
 				res.Count("mismatch-turned-into-failing-input")
 				// shrink in monitor-only mode
 				fails := func(cand []string) bool {
@@ -483,8 +486,10 @@ func TestHarness(t *testing.T) {
 		res.Write(o)
 		return
 	}
+	// a disagreement of the sweep is reported only if the histories below do not exhibit a decision that violates the documented order
+	var sweepFinding *hx.Finding
 	if o.Prop == "C04" || o.Prop == "" {
-		fairSweep(res)
+		sweepFinding = fairSweep(res)
 	}
 
 	histories := 120 * o.Scale
@@ -540,6 +545,9 @@ func TestHarness(t *testing.T) {
 		if r.fail != nil {
 			reportWithSearch(lines, g.queues, r.fail, o.Seed, g.focus)
 		}
+	}
+	if sweepFinding != nil && len(res.Findings) == 0 {
+		res.Report(*sweepFinding)
 	}
 	res.ModelLines = drv.Lines
 	fairFinish(res)
